@@ -83,6 +83,31 @@ def mutate(rng, b):
     return bytes(b)
 
 
+_JSON_KEYS = None
+
+
+def json_keys():
+    """member names seen in any JSON object among the repository vectors (optional members of one vector are present in another)"""
+    global _JSON_KEYS  # pylint: disable=global-statement
+    if _JSON_KEYS is None:
+        import json
+        import re
+        keys = set()
+        for vs in library_vectors().values():
+            for v in vs:
+                m = re.search(rb'\{.*\}', v, re.S)
+                if m is None:
+                    continue
+                try:
+                    doc = json.loads(m.group(0).decode('ascii'))
+                except (ValueError, UnicodeDecodeError):
+                    continue
+                if isinstance(doc, dict):
+                    keys.update(k for k in doc if isinstance(k, str))
+        _JSON_KEYS = sorted(keys)
+    return _JSON_KEYS
+
+
 def directed(rng, v, siblings=(), budget=24, sentinels=24):
     """Structured malformations that byte-level mutation rarely reaches: a field emptied (an alphanumeric run removed, a
     32-bit word or a single byte zeroed), a small code walked through 0..15 at a position, a digit run inflated beyond the
@@ -101,17 +126,25 @@ def directed(rng, v, siblings=(), budget=24, sentinels=24):
             out.append(v[:a] + b'99999999999999999999' + v[b:])
         out.append(b'99999999999999999999')
         # JSON values: every member replaced by values of other types and by the numbers a converter may choke on
-        if v.lstrip()[:1] == b'{':
+        jm = re.search(rb'\{.*\}', v, re.S)      # a JSON object: the whole value, or the value of a header line in a block
+        if jm is not None:
             try:
                 import json
-                doc = json.loads(v.decode('ascii'))
+                doc = json.loads(jm.group(0).decode('ascii'))
             except ValueError:
                 doc = None
             if isinstance(doc, dict):
                 for k in list(doc)[:6]:
                     for alt in ('NaN', 'Infinity', '-Infinity', '1e999', '-1', '"x"', '[]', '{}', 'null', 'true', '1.5', '99999999999999999999',
                                 '9' * 400, '[' * 100000 + ']' * 100000):
-                        out.append(('{%s}' % ', '.join('%s: %s' % (json.dumps(n), alt if n == k else json.dumps(x)) for n, x in doc.items())).encode('ascii'))
+                        new_doc = ('{%s}' % ', '.join('%s: %s' % (json.dumps(n), alt if n == k else json.dumps(x)) for n, x in doc.items())).encode('ascii')
+                        out.append(v[:jm.start()] + new_doc + v[jm.end():])
+                # optional members the object does not carry, with the numbers a converter or a composer may choke on
+                for k in json_keys():
+                    if k not in doc:
+                        for alt in ('Infinity', '-1e999', 'NaN', '"x"'):
+                            new_doc = ('{%s}' % ', '.join(['%s: %s' % (json.dumps(n), json.dumps(x)) for n, x in doc.items()] + ['%s: %s' % (json.dumps(k), alt)])).encode('ascii')
+                            out.append(v[:jm.start()] + new_doc + v[jm.end():])
         # dates at the ends of the calendar with a zone offset that carries them beyond it, and beyond the calendar
         for m in list(re.finditer(rb'[A-Z][a-z]{2}, \d{2} [A-Z][a-z]{2} \d{4} \d{2}:\d{2}:\d{2} GMT', v))[:2]:
             a, b = m.span()
